@@ -2,22 +2,147 @@ package drive
 
 import (
 	"verif/harness/core"
+	"verif/harness/gen"
 )
 
 var allBackends = []string{BBolt, BBolt, BBolt, BBoltRaw, BadgerMem, BadgerMem, BadgerDisk}
+var threeBackends = []string{BBolt, BBolt, BadgerMem, BadgerDisk}
+
+var modelAssumptions = []string{
+	"the reference model (harness/model) encodes the documented semantics; it is cross-checked on order/Boolean laws by the C10 and C16 checks",
+	"values, names and callbacks stay inside the supported domain of DESIGN.md section 5",
+}
 
 var seqGeneral = &SeqCfg{
 	Focus: "general", Ops: [2]int{40, 120}, NColls: [2]int{2, 4}, InitDocs: []int{0, 3, 10, 25, 60},
 	AuditEvery: [2]int{15, 40}, Queries: 2, W: weights(nil), Backends: allBackends,
 }
 
+var seqBulk = &SeqCfg{
+	Focus: "bulk", Ops: [2]int{5, 12}, NColls: [2]int{1, 2}, InitDocs: []int{0, 1, 2, 5, 17, 37, 60, 100, 150, 400, 1000},
+	AuditEvery: [2]int{4, 8}, Queries: 0, Backends: []string{BBolt, BBolt, BBolt, BadgerMem, BadgerDisk, BBoltRaw},
+	W: weights(map[string]int{"CreateCollection": 0, "DropCollection": 4, "HasCollection": 0, "ListCollections": 0, "CreateIndex": 6, "DropIndex": 4, "HasIndex": 0, "ListIndexes": 0,
+		"Insert": 3, "InsertOne": 0, "Save": 0, "ReplaceById": 0, "UpdateById": 1, "Update": 22, "UpdateFunc": 26, "Delete": 14, "DeleteById": 1,
+		"FindAll": 2, "Count": 1, "FindById": 0, "CreateByQuery": 1, "Reopen": 0, "hostileBatchPct": 0, "rewriteIDPct": 0, "badExpPct": 0}),
+	IDStyles: true, BigPad: true,
+}
+
+var seqBulkBig = &SeqCfg{
+	Focus: "bulk-big", Ops: [2]int{3, 6}, NColls: [2]int{1, 1}, InitDocs: []int{1500, 2500, 4000},
+	AuditEvery: [2]int{3, 6}, Queries: 0, Backends: []string{BBolt, BBolt, BadgerMem, BadgerDisk},
+	W: seqBulk.W, IDStyles: true, BigPad: true,
+}
+
+var seqAudit = &SeqCfg{
+	Focus: "audit", Ops: [2]int{30, 80}, NColls: [2]int{2, 3}, InitDocs: []int{0, 3, 12, 40, 150},
+	AuditEvery: [2]int{2, 6}, Queries: 0, Backends: threeBackends,
+	W: weights(map[string]int{"DropCollection": 6, "CreateCollection": 6, "CreateIndex": 10, "DropIndex": 8, "DeleteById": 14, "Delete": 8, "UpdateFunc": 10, "UpdateById": 10,
+		"FindAll": 2, "Count": 2, "hostileBatchPct": 30, "rewriteIDPct": 10, "badExpPct": 10, "Reopen": 2}),
+	ForceFields: map[string]gen.Profile{"x": {Kind: gen.PSmallInt}, "xy": {Kind: gen.PMixedNum, Nil: 10}, "n.a": {Kind: gen.PSmallInt, Absent: 20}, "n.b": {Kind: gen.PString}},
+}
+
+var seqSort = &SeqCfg{
+	Focus: "sort", Ops: [2]int{40, 70}, NColls: [2]int{1, 2}, InitDocs: []int{2, 8, 20, 45, 90},
+	AuditEvery: [2]int{40, 60}, Queries: 0, Backends: allBackends, CritPct: 55, SortPct: 92, WinPct: 50,
+	W: weights(map[string]int{"FindAll": 120, "Count": 4, "CreateIndex": 6, "DropIndex": 3, "Insert": 4, "UpdateById": 4, "DeleteById": 3, "Update": 2, "UpdateFunc": 2, "Delete": 1,
+		"CreateCollection": 0, "DropCollection": 0, "Save": 1, "ReplaceById": 1, "InsertOne": 1, "CreateByQuery": 0, "hostileBatchPct": 0}),
+}
+
+var seqDerived = &SeqCfg{
+	Focus: "derived", Ops: [2]int{30, 70}, NColls: [2]int{1, 3}, InitDocs: []int{0, 1, 5, 20, 50},
+	AuditEvery: [2]int{30, 60}, Queries: 1, Derived: true, Backends: allBackends, SortPct: 50, WinPct: 40,
+	W: weights(map[string]int{"Derived": 40, "FindAll": 0, "Count": 0, "DeleteById": 12, "hostileBatchPct": 25, "rewriteIDPct": 8, "badExpPct": 8}),
+}
+
+var seqIDs = &SeqCfg{
+	Focus: "ids", Ops: [2]int{30, 70}, NColls: [2]int{2, 3}, InitDocs: []int{0, 2, 6, 12},
+	AuditEvery: [2]int{20, 40}, Queries: 0, Backends: allBackends, SharedIDs: true, IDSweep: true,
+	W: weights(map[string]int{"Insert": 20, "InsertOne": 8, "Save": 14, "ReplaceById": 12, "UpdateById": 14, "Update": 8, "UpdateFunc": 8, "FindById": 6, "FindAll": 2,
+		"CreateIndex": 3, "DropIndex": 1, "hostileBatchPct": 40, "rewriteIDPct": 30, "badExpPct": 5}),
+}
+
+var seqColls = &SeqCfg{
+	Focus: "colls", Ops: [2]int{30, 70}, NColls: [2]int{3, 6}, InitDocs: []int{0, 2, 6, 15},
+	AuditEvery: [2]int{15, 30}, Queries: 0, Backends: allBackends, SharedIDs: true, CheckOthers: true,
+	W: weights(map[string]int{"CreateCollection": 10, "DropCollection": 8, "HasCollection": 5, "ListCollections": 4, "CreateIndex": 6, "DropIndex": 4, "HasIndex": 3, "ListIndexes": 3,
+		"CreateByQuery": 4, "FindAll": 4, "Delete": 6, "Update": 6}),
+}
+
+var seqIndexes = &SeqCfg{
+	Focus: "indexes", Ops: [2]int{30, 60}, NColls: [2]int{1, 2}, InitDocs: []int{0, 3, 10, 30},
+	AuditEvery: [2]int{10, 20}, Queries: 1, Backends: allBackends, AuditAfterIndexOps: true, SortPct: 60,
+	W: weights(map[string]int{"CreateIndex": 22, "DropIndex": 16, "HasIndex": 6, "ListIndexes": 6, "CreateCollection": 1, "DropCollection": 1, "FindAll": 14}),
+	ForceFields: map[string]gen.Profile{"x": {Kind: gen.PSmallInt, Absent: 10}, "xy": {Kind: gen.PMixedNum, Nil: 10}, "n.a": {Kind: gen.PSmallInt, Absent: 20}, "n.b": {Kind: gen.PString}},
+}
+
+func seqEngine(name string, cfg *SeqCfg) *core.Engine {
+	return &core.Engine{Name: name, Run: func(c *core.Ctx) { RunSeq(c, cfg) }}
+}
+
 func init() {
-	eSeqGeneral := &core.Engine{Name: "seq-general", Run: func(c *core.Ctx) { RunSeq(c, seqGeneral) }}
+	eGeneral := seqEngine("seq-general", seqGeneral)
+	eTwin := &core.Engine{Name: "twin", Run: RunTwin}
+	eBulk := seqEngine("seq-bulk", seqBulk)
+	eBulkBig := seqEngine("seq-bulk-big", seqBulkBig)
+	eAudit := seqEngine("seq-audit", seqAudit)
+	eSort := seqEngine("seq-sort", seqSort)
+	eDerived := seqEngine("seq-derived", seqDerived)
+	eIDs := seqEngine("seq-ids", seqIDs)
+	eColls := seqEngine("seq-colls", seqColls)
+	eIndexes := seqEngine("seq-indexes", seqIndexes)
 
 	core.Register(&core.PropSpec{
 		ID: "C01", Level: "exploration",
-		Rule: "seeded random histories of public operations over 2-4 collections (indexes absent / created before / after the data) run on the real DB next to the reference model; every FindAll answer is compared with the model (ids, full field trees, types). evaluations = oracle comparisons of call outcomes and query answers. A cell <criteria shape | plan kind from the store event log | sort kind | window | index presence> is counted only when the answer was non-empty and not the whole collection.",
-		Assumptions: []string{"the reference model (harness/model) encodes the documented semantics", "values and names stay inside the supported domain of DESIGN.md section 5"},
-		Uses: []core.Use{{E: eSeqGeneral, Quick: 240, Thorough: 6000}},
+		Rule: "seeded random histories of public operations over 2-4 collections (indexes absent / created before / after the data) run on the real DB next to the reference model; every FindAll answer is compared with the model (ids, full field trees, Go types). evaluations = oracle comparisons of call outcomes and query answers. A cell <criteria shape | plan kind from the store event log | sort kind | window | index presence> is counted only when the answer was non-empty and not the whole collection.",
+		Assumptions: modelAssumptions,
+		Uses: []core.Use{{E: eGeneral, Quick: 240, Thorough: 6000}},
+	})
+	core.Register(&core.PropSpec{
+		ID: "C02", Level: "exploration",
+		Rule: "twin collections holding the same documents but different index sets (none / filter field / sort field / unrelated / prefix+dotted siblings), indexes created before the load, after it, mid-history or dropped and re-created; every write goes to all twins, every FindAll/Count runs on all twins and is compared with the model and with the other twins (sets unsorted, sort-key sequences sorted, sizes windowed). A cell <criteria shape | set of plans that ran | sort kind | window> counts only when at least one twin really ran an index plan (store event log) and the answer was non-empty.",
+		Assumptions: modelAssumptions,
+		Uses: []core.Use{{E: eTwin, Quick: 200, Thorough: 4000}, {E: eGeneral, Quick: 60, Thorough: 1000}},
+	})
+	core.Register(&core.PropSpec{
+		ID: "C03", Level: "exploration",
+		Rule: "bulk Update/UpdateFunc/Delete/DropCollection on collections of 0..4000 documents (padding 0-600 B, ids random/clustered/sequential, 0-3 indexes, criteria and sorts on the rewritten field, both updater styles) on bbolt, badger-mem, badger-disk; the UpdateFunc callback records every invocation (exactly once per selected document, on the pre-call value) and the whole collection is compared with the model after each bulk operation. A cell <operation|backend|size class|#indexes|plan|selected class> counts when >= 2 documents were selected.",
+		Assumptions: modelAssumptions,
+		Uses: []core.Use{{E: eBulk, Quick: 260, Thorough: 5000}, {E: eBulkBig, Quick: 6, Thorough: 150}},
+	})
+	core.Register(&core.PropSpec{
+		ID: "C06", Level: "exploration",
+		Rule: "histories skewed to deletes of absent ids, failing operations, drop + re-create of collections and indexes, prefix/dotted sibling indexes, in-place updaters; every 2-6 operations the state-rebuild audit runs: Count/FindAll/model agreement, ordered and range scans through every index vs the model, and the raw key listing of the live store compared key-by-key with a database rebuilt from the logical state (identical key sets, equal decoded values). A cell <preceding operation|backend|#indexes|size class> counts when the audited store held >= 1 index and >= 2 documents.",
+		Assumptions: append([]string{"the fresh rebuild (CreateCollection, one Insert, CreateIndex) encodes correctly - that is C10/C17's business"}, modelAssumptions...),
+		Uses: []core.Use{{E: eAudit, Quick: 200, Thorough: 5000}},
+	})
+	core.Register(&core.PropSpec{
+		ID: "C08", Level: "exploration",
+		Rule: "collections with duplicate, absent, nil and mixed-type sort keys; 1-3 sort options in all direction spellings (0, 2, -3, ...), skip/limit over {-1,0,1,n-1,n,n+3,random}; the returned sort-key tuple sequence must equal the window of the model's fully sorted sequence (absent = nil, or absent before nil), members distinct, live, matching; unsorted windows must have length min(m,max(0,total-n)). A cell is <shape|plan|sort kind|window|index> with a non-empty, non-total answer.",
+		Assumptions: modelAssumptions,
+		Uses: []core.Use{{E: eSort, Quick: 200, Thorough: 4000}},
+	})
+	core.Register(&core.PropSpec{
+		ID: "C09", Level: "exploration",
+		Rule: "for random queries in states reached by histories that include deletes of absent ids and failed operations: FindAll, Count, Exists, FindFirst and ForEach (full and stopping after 1, 2, k, all) run on the same handle and are compared with each other and the model; a structural fingerprint of the query object is compared before/after every API and builder call; the store event log must show no Set/Delete during reads. A cell <criteria?|sorted?|window?|plan|stop class> counts when FindAll had >= 2 documents.",
+		Assumptions: modelAssumptions,
+		Uses: []core.Use{{E: eDerived, Quick: 200, Thorough: 4000}},
+	})
+	core.Register(&core.PropSpec{
+		ID: "C12", Level: "exploration",
+		Rule: "id-focused histories (single and batched inserts with generated and supplied ids, duplicates and malformed ids at random batch positions, ids reused across collections, Save/ReplaceById with matching and mismatching ids, updates rewriting _id); generated ids are checked by an independent canonical-UUID parser and for uniqueness; after every write FindById is called for every id ever used in every collection and must return nil or the model's document whose _id equals the key. Cells are <operation|outcome class> pairs observed.",
+		Assumptions: modelAssumptions,
+		Uses: []core.Use{{E: eIDs, Quick: 250, Thorough: 5000}},
+	})
+	core.Register(&core.PropSpec{
+		ID: "C13", Level: "exploration",
+		Rule: "3-6 collections with hostile names (prefix pairs, names that look like key prefixes, unicode, empty) whose documents reuse the same ids; after every write the catalog and the full content, index list and Count of every OTHER collection are compared with the model. Cells are <operation|outcome class> pairs observed.",
+		Assumptions: modelAssumptions,
+		Uses: []core.Use{{E: eColls, Quick: 250, Thorough: 5000}},
+	})
+	core.Register(&core.PropSpec{
+		ID: "C14", Level: "exploration",
+		Rule: "index create/drop interleaved with writes on schemas that always contain x, xy, n.a, n.b (and n); after every index operation the catalog is compared with the model and every surviving index serves an ordered scan in both directions, a range, an equality and a descending range query that are compared with the model; periodic raw-store audits. Cells are <operation|outcome class> pairs plus audit cells.",
+		Assumptions: modelAssumptions,
+		Uses: []core.Use{{E: eIndexes, Quick: 250, Thorough: 5000}},
 	})
 }
